@@ -32,6 +32,8 @@ type Opts struct {
 	StreamForce string
 	// StreamViews allows result types with views as streamed results in Runtime mode.
 	StreamViews bool
+	// Unions lets a share of the designs carry OneOf attributes in request/response bodies (gen/union.go).
+	Unions bool
 }
 
 type g struct {
@@ -46,6 +48,13 @@ type g struct {
 	chain      []string                 // outer aliases of alias chains whose validations sit on the innermost alias
 	catchAll   map[string]*catchAllInfo // service -> first catch-all route
 	lastPrefix string
+	// unions (union.go): own PRNG stream, the design-level decision, names in use, member types, holder type
+	ur          *vc.Rand
+	unions      bool
+	unionNames  map[string]bool
+	unionMember map[string]bool
+	unionHolder string
+	unionPlaced map[string]bool
 }
 
 var words = []string{"alpha", "bravo", "charlie", "delta", "echo", "foxtrot", "golf", "hotel", "india", "juliet", "kilo", "lima",
@@ -108,6 +117,8 @@ func Generate(r *vc.Rand, id string, o Opts) *spec.Spec {
 	}
 	// user types
 	x.genUserTypes()
+	x.unionPlan()
+	x.genUnionTypes() // union.go (Opts.Unions)
 	// API-level errors
 	if o.Profile == "errors" && x.chance(1, 2) || x.chance(1, 8) {
 		e := &spec.ErrorDecl{Name: "api_" + x.r.Pick("unauthorized", "teapot", "gone")}
